@@ -5,7 +5,7 @@
 (* "ss" clock cycle; KeepCycles = 10 us, RecCycles = 1 ms in cycles of     *)
 (* the clock the module was built for.                                     *)
 (*                                                                         *)
-(* Record r = [n, en, rx, pkt, tx, ka, rec]: n consecutive cycles with     *)
+(* Record r = [n, en, rx, pkt, tx, ka, rec, rst]: n consecutive cycles with     *)
 (* these inputs (en = enable, rx = link command received, pkt = packet     *)
 (* received, tx = link command transmitted) and these observed outputs     *)
 (* (ka = schedule_keepalive, rec = transition_to_recovery).  n > 1 only    *)
@@ -28,7 +28,7 @@ CONSTANTS KeepCycles, RecCycles
 TmInit == [ks |-> 0, karmed |-> TRUE, rs |-> 0, rarmed |-> TRUE]
 Cap == 1000000000
 
-Quiet(r) == ~r.rx /\ ~r.pkt /\ ~r.tx /\ ~r.ka /\ ~r.rec
+Quiet(r) == ~r.rx /\ ~r.pkt /\ ~r.tx /\ ~r.ka /\ ~r.rec /\ ~r.rst
 
 TmFailing(t, r) ==
     IF r.n > 1 THEN
@@ -43,6 +43,7 @@ TmFailing(t, r) ==
     ELSE "ok"
 
 TmNext(t, r) ==
+    IF r.rst THEN TmInit ELSE        \* clock-domain reset: both timers start over
     [ks     |-> IF r.tx \/ ~r.en THEN 0 ELSE IF t.ks + r.n > Cap THEN Cap ELSE t.ks + r.n,
      karmed |-> IF r.tx \/ ~r.en THEN TRUE ELSE t.karmed /\ ~r.ka,
      rs     |-> IF r.rx \/ r.pkt \/ ~r.en THEN 0 ELSE IF t.rs + r.n > Cap THEN Cap ELSE t.rs + r.n,
